@@ -9,7 +9,7 @@ EVID = os.path.join(VERIF, 'evidence')
 REPLAYS = os.path.join(VERIF, 'replays')
 KF_FILE = os.path.join(VERIF, 'known_findings.json')
 
-ASAN_OPTS = 'detect_leaks=0:alloc_dealloc_mismatch=1:max_allocation_size_mb=1024:hard_rss_limit_mb=6144:allocator_may_return_null=0:exitcode=99:handle_abort=1'
+ASAN_OPTS = 'detect_leaks=0:alloc_dealloc_mismatch=1:quarantine_size_mb=32:max_allocation_size_mb=1024:hard_rss_limit_mb=6144:allocator_may_return_null=0:exitcode=99:handle_abort=1'
 
 def seed():
     try:
@@ -172,7 +172,22 @@ def confirm_and_report(res, prop, replay_bin, text, msg, crash, env=None):
     return True
 
 def run_pbt_shards(prop, bins, n_total, size, shards, tier, extra_env=None, prop_arg=None, timeout=None):
-    """Runs the rapidcheck front-end in `shards` processes with derived seeds. Returns merged stats + failures."""
+    """Runs the rapidcheck front-end in `shards` processes with derived seeds; large totals are split into rounds of fresh
+    processes (bounded memory, more distinct seeds). Returns merged stats + failures."""
+    per_round = 6000 * shards
+    if n_total > per_round:
+        rounds = (n_total + per_round - 1) // per_round
+        merged = None
+        for rd in range(rounds):
+            m = _run_pbt_round(prop, bins, min(per_round, n_total - rd * per_round), size, shards, tier, extra_env, prop_arg, timeout, seed_offset=(rd + 1) * 100)
+            merged = m if merged is None else merge_stats(merged, m)
+            if merged['fails']:
+                break           # a failure ends the campaign: it is reported, the rest would only repeat it
+        merged['rounds'] = rd + 1
+        return merged
+    return _run_pbt_round(prop, bins, n_total, size, shards, tier, extra_env, prop_arg, timeout, seed_offset=0)
+
+def _run_pbt_round(prop, bins, n_total, size, shards, tier, extra_env, prop_arg, timeout, seed_offset):
     os.makedirs(WORK, exist_ok=True)
     per = max(1, n_total // shards)
     s0 = seed()
@@ -185,7 +200,7 @@ def run_pbt_shards(prop, bins, n_total, size, shards, tier, extra_env=None, prop
         env = base_env({'VERIF_TIER': tier, 'VERIF_OPEN_FINDINGS': opens})
         if extra_env:
             env.update(extra_env)
-        cmd = [bins['pbt'], prop_arg or prop, '--n', str(per), '--size', str(size), '--seed', str(s0 * 1000 + i), '--stats', st, '--work', WORK]
+        cmd = [bins['pbt'], prop_arg or prop, '--n', str(per), '--size', str(size), '--seed', str(s0 * 1000 + seed_offset * 1000 + i), '--stats', st, '--work', WORK]
         p = subprocess.Popen(cmd, stdout=subprocess.PIPE, stderr=subprocess.STDOUT, text=True, errors='replace', env=env)
         procs.append((p, st, i))
     merged = {'evaluations': 0, 'discards': 0, 'nt': set(), 'tags': {}, 'counters': {}, 'known': {}, 'samples': [], 'fails': [], 'nt_rule': ''}
@@ -361,6 +376,8 @@ def generic_pbt(prop, tier, n_quick, n_thorough, size_quick=100, size_thorough=1
         res.broken = 'build failed: ' + str(e)[:2000]
         return finish(prop, tier, level, res, {'evaluations': 0, 'distinct_nontrivial': 0, 'rule': '', 'samples': []}, t0)
     n = n_thorough if tier == 'thorough' else n_quick
+    if os.environ.get('VERIF_N_OVERRIDE'):
+        n = int(os.environ['VERIF_N_OVERRIDE'])      # for calibrating budgets only
     size = size_thorough if tier == 'thorough' else size_quick
     shards = shards_thorough if tier == 'thorough' else shards_quick
     m = run_pbt_shards(prop, bins, n, size, shards, tier, extra_env=extra_env, prop_arg=prop_arg)
